@@ -75,8 +75,11 @@ namespace vo
     };
 
     // checks one reported solution of the CURRENT query
-    inline void checkSolution(vw::Problem &P, const ob::PlannerSolution &sol, unsigned flags, const std::string &pl, const Fail &fail, Facts *facts = nullptr)
+    inline void checkSolution(vw::Problem &P, const ob::PlannerSolution &sol, unsigned flags, const std::string &pl, const Fail &fail, Facts *facts = nullptr,
+                              ob::ProblemDefinition *pd = nullptr)
     {
+        if (!pd)
+            pd = P.pdef.get();
         auto &sp = P.space;
         auto *path = dynamic_cast<og::PathGeometric *>(sol.path_.get());
         if (!path)
@@ -92,9 +95,9 @@ namespace vo
         }
         // starts at a valid, in-bounds start state of the query
         bool atStart = false;
-        for (unsigned i = 0; i < P.pdef->getStartStateCount(); ++i)
+        for (unsigned i = 0; i < pd->getStartStateCount(); ++i)
         {
-            const ob::State *s = P.pdef->getStartState(i);
+            const ob::State *s = pd->getStartState(i);
             if (sp->equalStates(s, path->getState(0)) && sp->satisfiesBounds(s) && P.isValid(s))
                 atStart = true;
         }
@@ -107,7 +110,7 @@ namespace vo
                 break;
             }
         const ob::State *last = path->getState(n - 1);
-        auto *goal = P.pdef->getGoal().get();
+        auto *goal = pd->getGoal().get();
         if (!sol.approximate_)
         {
             if (!goal->isSatisfied(last))
@@ -149,9 +152,11 @@ namespace vo
     }
 
     // status / flag / solution-set coherence for a solve() on a definition that held `before` solutions
-    inline void checkStatus(vw::Problem &P, ob::PlannerStatus st, size_t before, const std::string &pl, const Fail &fail)
+    inline void checkStatus(vw::Problem &P, ob::PlannerStatus st, size_t before, const std::string &pl, const Fail &fail, ob::ProblemDefinition *pd = nullptr)
     {
-        size_t now = P.pdef->getSolutionCount();
+        if (!pd)
+            pd = P.pdef.get();
+        size_t now = pd->getSolutionCount();
         auto s = (ob::PlannerStatus::StatusType)st;
         bool solutionStatus = s == ob::PlannerStatus::EXACT_SOLUTION || s == ob::PlannerStatus::APPROXIMATE_SOLUTION;
         if (!solutionStatus)
@@ -165,9 +170,9 @@ namespace vo
             fail("C01|solution-status-without-path|" + pl, "status " + st.asString() + " but the problem definition holds no solution");
             return;
         }
-        if (s == ob::PlannerStatus::EXACT_SOLUTION && !P.pdef->hasExactSolution())
+        if (s == ob::PlannerStatus::EXACT_SOLUTION && !pd->hasExactSolution())
             fail("C01|status-exact-but-approximate|" + pl, "status Exact solution but the problem definition's best solution is flagged approximate");
-        if (s == ob::PlannerStatus::APPROXIMATE_SOLUTION && !P.pdef->hasApproximateSolution())
+        if (s == ob::PlannerStatus::APPROXIMATE_SOLUTION && !pd->hasApproximateSolution())
             fail("C01|status-approximate-but-exact|" + pl, "status Approximate solution but the problem definition's best solution is not flagged approximate");
     }
 
